@@ -27,7 +27,7 @@ def extract(ctx):
         if r.returncode != 0 or not os.path.exists(os.path.join(GEN, "locks.json")):
             return None, "the translator failed on the working tree (does it still type-check?):\n" + r.stdout[-3000:]
         vf.log(r.stdout.strip())
-        r = vf.sh(["timeout", "600", "coqc"] + COQFLAGS + [os.path.join(GEN, "Locks.v")], cwd=GEN)
+        r = vf.sh(["timeout", "600", "coqc"] + COQFLAGS + [os.path.join(GEN, "Locks.v")], cwd=GEN, preexec_fn=vf._big_stack)
         if r.returncode != 0:
             return None, "the generated Locks.v does not compile:\n" + r.stdout[-3000:]
     data = json.load(open(os.path.join(GEN, "locks.json")))
@@ -47,7 +47,7 @@ def coqc_gen(name, text, timeout=900):
     path = os.path.join(GEN, name + ".v")
     with open(path, "w") as f:
         f.write(text)
-    r = vf.sh(["timeout", str(timeout), "coqc"] + COQFLAGS + [path], cwd=GEN)
+    r = vf.sh(["timeout", str(timeout), "coqc"] + COQFLAGS + [path], cwd=GEN, preexec_fn=vf._big_stack)
     for ext in (".vo", ".vok", ".vos", ".glob"):
         try:
             os.remove(os.path.join(GEN, name + ext))
